@@ -31,8 +31,27 @@ package services
 //@   nopanic
 //@   requires s != nil && s.client != nil && req != nil && tables_wf()
 
+// C17: an update changes exactly the configuration named in its mask: every column of every other row, and every
+// column of the updated subscription whose mask path is not listed, is unchanged (mask_local); a listed path is
+// applied - in particular an update that only removes optional configuration is still saved (mask_applied_*).
 //@ func (*subscriberServer).UpdateSubscription(s, ctx, req) (resp, err)
-//@   property C16
+//@   property C16 C17
+//@   ensures mask_local_fixed: [C17] err == nil ==> (forall x Id :: {subscriptions.name(x)} subscriptions.exists(x) == old(subscriptions.exists(x)) && subscriptions.name(x) == old(subscriptions.name(x)) && subscriptions.created_at(x) == old(subscriptions.created_at(x)) && subscriptions.live(x) == old(subscriptions.live(x)) && subscriptions.live$null(x) == old(subscriptions.live$null(x)) && subscriptions.deleted_at(x) == old(subscriptions.deleted_at(x)) && subscriptions.deleted_at$null(x) == old(subscriptions.deleted_at$null(x)) && subscriptions.delivery_delay(x) == old(subscriptions.delivery_delay(x)) && subscriptions.topic_id(x) == old(subscriptions.topic_id(x)))
+//@   ensures mask_local_labels: [C17] err == nil && !(req.UpdateMask != nil && (exists k int :: 0 <= k && k < len(req.UpdateMask.Paths) && req.UpdateMask.Paths[k] == "labels")) ==> (forall x Id :: {subscriptions.name(x)} subscriptions.labels(x) == old(subscriptions.labels(x)) && subscriptions.labels$null(x) == old(subscriptions.labels$null(x)))
+//@   ensures mask_local_expiration_policy: [C17] err == nil && !(req.UpdateMask != nil && (exists k int :: 0 <= k && k < len(req.UpdateMask.Paths) && req.UpdateMask.Paths[k] == "expiration_policy")) ==> (forall x Id :: {subscriptions.name(x)} subscriptions.ttl(x) == old(subscriptions.ttl(x)) && subscriptions.expires_at(x) == old(subscriptions.expires_at(x)))
+//@   ensures mask_local_message_retention_duration: [C17] err == nil && !(req.UpdateMask != nil && (exists k int :: 0 <= k && k < len(req.UpdateMask.Paths) && req.UpdateMask.Paths[k] == "message_retention_duration")) ==> (forall x Id :: {subscriptions.name(x)} subscriptions.message_ttl(x) == old(subscriptions.message_ttl(x)))
+//@   ensures mask_local_enable_message_ordering: [C17] err == nil && !(req.UpdateMask != nil && (exists k int :: 0 <= k && k < len(req.UpdateMask.Paths) && req.UpdateMask.Paths[k] == "enable_message_ordering")) ==> (forall x Id :: {subscriptions.name(x)} subscriptions.ordered_delivery(x) == old(subscriptions.ordered_delivery(x)) && subscriptions.ordered_delivery$null(x) == old(subscriptions.ordered_delivery$null(x)))
+//@   ensures mask_local_retry_policy: [C17] err == nil && !(req.UpdateMask != nil && (exists k int :: 0 <= k && k < len(req.UpdateMask.Paths) && req.UpdateMask.Paths[k] == "retry_policy")) ==> (forall x Id :: {subscriptions.name(x)} subscriptions.min_backoff(x) == old(subscriptions.min_backoff(x)) && subscriptions.min_backoff$null(x) == old(subscriptions.min_backoff$null(x)) && subscriptions.max_backoff(x) == old(subscriptions.max_backoff(x)) && subscriptions.max_backoff$null(x) == old(subscriptions.max_backoff$null(x)))
+//@   ensures mask_local_push_config: [C17] err == nil && !(req.UpdateMask != nil && (exists k int :: 0 <= k && k < len(req.UpdateMask.Paths) && req.UpdateMask.Paths[k] == "push_config")) ==> (forall x Id :: {subscriptions.name(x)} subscriptions.push_endpoint(x) == old(subscriptions.push_endpoint(x)) && subscriptions.push_endpoint$null(x) == old(subscriptions.push_endpoint$null(x)))
+//@   ensures mask_local_filter: [C17] err == nil && !(req.UpdateMask != nil && (exists k int :: 0 <= k && k < len(req.UpdateMask.Paths) && req.UpdateMask.Paths[k] == "filter")) ==> (forall x Id :: {subscriptions.name(x)} subscriptions.filter(x) == old(subscriptions.filter(x)) && subscriptions.filter$null(x) == old(subscriptions.filter$null(x)))
+//@   ensures mask_local_dead_letter_policy: [C17] err == nil && !(req.UpdateMask != nil && (exists k int :: 0 <= k && k < len(req.UpdateMask.Paths) && req.UpdateMask.Paths[k] == "dead_letter_policy")) ==> (forall x Id :: {subscriptions.name(x)} subscriptions.dead_letter_topic_id(x) == old(subscriptions.dead_letter_topic_id(x)) && subscriptions.dead_letter_topic_id$null(x) == old(subscriptions.dead_letter_topic_id$null(x)) && subscriptions.max_delivery_attempts(x) == old(subscriptions.max_delivery_attempts(x)) && subscriptions.max_delivery_attempts$null(x) == old(subscriptions.max_delivery_attempts$null(x)))
+//@   ensures mask_local_rows: [C17] err == nil ==> (forall x Id :: {subscriptions.name(x)} !(old(live_sub(x)) && old(subscriptions.name(x)) == req.Subscription.Name) ==> subscriptions.labels(x) == old(subscriptions.labels(x)) && subscriptions.labels$null(x) == old(subscriptions.labels$null(x)) && subscriptions.ttl(x) == old(subscriptions.ttl(x)) && subscriptions.expires_at(x) == old(subscriptions.expires_at(x)) && subscriptions.message_ttl(x) == old(subscriptions.message_ttl(x)) && subscriptions.ordered_delivery(x) == old(subscriptions.ordered_delivery(x)) && subscriptions.ordered_delivery$null(x) == old(subscriptions.ordered_delivery$null(x)) && subscriptions.min_backoff(x) == old(subscriptions.min_backoff(x)) && subscriptions.min_backoff$null(x) == old(subscriptions.min_backoff$null(x)) && subscriptions.max_backoff(x) == old(subscriptions.max_backoff(x)) && subscriptions.max_backoff$null(x) == old(subscriptions.max_backoff$null(x)) && subscriptions.push_endpoint(x) == old(subscriptions.push_endpoint(x)) && subscriptions.push_endpoint$null(x) == old(subscriptions.push_endpoint$null(x)) && subscriptions.filter(x) == old(subscriptions.filter(x)) && subscriptions.filter$null(x) == old(subscriptions.filter$null(x)) && subscriptions.dead_letter_topic_id(x) == old(subscriptions.dead_letter_topic_id(x)) && subscriptions.dead_letter_topic_id$null(x) == old(subscriptions.dead_letter_topic_id$null(x)) && subscriptions.max_delivery_attempts(x) == old(subscriptions.max_delivery_attempts(x)) && subscriptions.max_delivery_attempts$null(x) == old(subscriptions.max_delivery_attempts$null(x)))
+//@   ensures mask_applied_filter: [C17] err == nil && req.UpdateMask != nil && (exists k int :: 0 <= k && k < len(req.UpdateMask.Paths) && req.UpdateMask.Paths[k] == "filter") ==> (forall x Id :: {subscriptions.name(x)} live_sub(x) && subscriptions.name(x) == req.Subscription.Name ==> ite(req.Subscription.Filter == "", subscriptions.filter$null(x), !subscriptions.filter$null(x) && subscriptions.filter(x) == req.Subscription.Filter))
+//@   ensures mask_applied_ordering: [C17] err == nil && req.UpdateMask != nil && (exists k int :: 0 <= k && k < len(req.UpdateMask.Paths) && req.UpdateMask.Paths[k] == "enable_message_ordering") ==> (forall x Id :: {subscriptions.name(x)} live_sub(x) && subscriptions.name(x) == req.Subscription.Name ==> !subscriptions.ordered_delivery$null(x) && subscriptions.ordered_delivery(x) == req.Subscription.EnableMessageOrdering)
+//@   ensures mask_applied_push: [C17] err == nil && req.UpdateMask != nil && (exists k int :: 0 <= k && k < len(req.UpdateMask.Paths) && req.UpdateMask.Paths[k] == "push_config") ==> (forall x Id :: {subscriptions.name(x)} live_sub(x) && subscriptions.name(x) == req.Subscription.Name ==> ite(req.Subscription.PushConfig == nil || req.Subscription.PushConfig.PushEndpoint == "", subscriptions.push_endpoint$null(x), !subscriptions.push_endpoint$null(x) && subscriptions.push_endpoint(x) == req.Subscription.PushConfig.PushEndpoint))
+//@   ensures mask_applied_retry: [C17] err == nil && req.UpdateMask != nil && (exists k int :: 0 <= k && k < len(req.UpdateMask.Paths) && req.UpdateMask.Paths[k] == "retry_policy") ==> (forall x Id :: {subscriptions.name(x)} live_sub(x) && subscriptions.name(x) == req.Subscription.Name ==>
+//@             subscriptions.min_backoff$null(x) == (req.Subscription.RetryPolicy == nil || req.Subscription.RetryPolicy.MinimumBackoff == nil) &&
+//@             subscriptions.max_backoff$null(x) == (req.Subscription.RetryPolicy == nil || req.Subscription.RetryPolicy.MaximumBackoff == nil))
 //@   uses tables notifyspec
 //@   nopanic
 //@   requires s != nil && s.client != nil && req != nil && tables_wf()
@@ -154,7 +173,30 @@ package services
 //@ func (*subscriberServer).UpdateSubscription$1(tx) (err)
 //@   inline
 //@   loop 1
-//@     invariant req.Subscription != nil && req != nil
+//@     invariant req.Subscription != nil && req != nil && sub != nil
+//@     invariant untouched_name: ub.subscriptions.name$op(subUpdate) == 0
+//@     invariant untouched_created_at: ub.subscriptions.created_at$op(subUpdate) == 0
+//@     invariant untouched_live: ub.subscriptions.live$op(subUpdate) == 0
+//@     invariant untouched_deleted_at: ub.subscriptions.deleted_at$op(subUpdate) == 0
+//@     invariant untouched_delivery_delay: ub.subscriptions.delivery_delay$op(subUpdate) == 0
+//@     invariant untouched_topic_id: ub.subscriptions.topic_id$op(subUpdate) == 0
+//@     invariant local_labels: ub.subscriptions.labels$op(subUpdate) != 0 ==> (exists k int :: req.UpdateMask != nil && 0 <= k && k <= idx && req.UpdateMask.Paths[k] == "labels")
+//@     invariant local_ttl: ub.subscriptions.ttl$op(subUpdate) != 0 ==> (exists k int :: req.UpdateMask != nil && 0 <= k && k <= idx && req.UpdateMask.Paths[k] == "expiration_policy")
+//@     invariant local_expires_at: ub.subscriptions.expires_at$op(subUpdate) != 0 ==> (exists k int :: req.UpdateMask != nil && 0 <= k && k <= idx && req.UpdateMask.Paths[k] == "expiration_policy")
+//@     invariant local_message_ttl: ub.subscriptions.message_ttl$op(subUpdate) != 0 ==> (exists k int :: req.UpdateMask != nil && 0 <= k && k <= idx && req.UpdateMask.Paths[k] == "message_retention_duration")
+//@     invariant local_ordered_delivery: ub.subscriptions.ordered_delivery$op(subUpdate) != 0 ==> (exists k int :: req.UpdateMask != nil && 0 <= k && k <= idx && req.UpdateMask.Paths[k] == "enable_message_ordering")
+//@     invariant local_min_backoff: ub.subscriptions.min_backoff$op(subUpdate) != 0 ==> (exists k int :: req.UpdateMask != nil && 0 <= k && k <= idx && req.UpdateMask.Paths[k] == "retry_policy")
+//@     invariant local_max_backoff: ub.subscriptions.max_backoff$op(subUpdate) != 0 ==> (exists k int :: req.UpdateMask != nil && 0 <= k && k <= idx && req.UpdateMask.Paths[k] == "retry_policy")
+//@     invariant local_push_endpoint: ub.subscriptions.push_endpoint$op(subUpdate) != 0 ==> (exists k int :: req.UpdateMask != nil && 0 <= k && k <= idx && req.UpdateMask.Paths[k] == "push_config")
+//@     invariant local_filter: ub.subscriptions.filter$op(subUpdate) != 0 ==> (exists k int :: req.UpdateMask != nil && 0 <= k && k <= idx && req.UpdateMask.Paths[k] == "filter")
+//@     invariant local_dead_letter_topic_id: ub.subscriptions.dead_letter_topic_id$op(subUpdate) != 0 ==> (exists k int :: req.UpdateMask != nil && 0 <= k && k <= idx && req.UpdateMask.Paths[k] == "dead_letter_policy")
+//@     invariant local_max_delivery_attempts: ub.subscriptions.max_delivery_attempts$op(subUpdate) != 0 ==> (exists k int :: req.UpdateMask != nil && 0 <= k && k <= idx && req.UpdateMask.Paths[k] == "dead_letter_policy")
+//@     invariant applied_filter: (exists k int :: req.UpdateMask != nil && 0 <= k && k <= idx && req.UpdateMask.Paths[k] == "filter") ==> ite(req.Subscription.Filter == "", ub.subscriptions.filter$op(subUpdate) == 2, ub.subscriptions.filter$op(subUpdate) == 1 && ub.subscriptions.filter(subUpdate) == req.Subscription.Filter)
+//@     invariant applied_ordering: (exists k int :: req.UpdateMask != nil && 0 <= k && k <= idx && req.UpdateMask.Paths[k] == "enable_message_ordering") ==> ub.subscriptions.ordered_delivery$op(subUpdate) == 1 && ub.subscriptions.ordered_delivery(subUpdate) == req.Subscription.EnableMessageOrdering
+//@     invariant applied_labels: (exists k int :: req.UpdateMask != nil && 0 <= k && k <= idx && req.UpdateMask.Paths[k] == "labels") ==> ub.subscriptions.labels$op(subUpdate) == 1 && ub.subscriptions.labels(subUpdate) == req.Subscription.Labels
+//@     invariant applied_push: (exists k int :: req.UpdateMask != nil && 0 <= k && k <= idx && req.UpdateMask.Paths[k] == "push_config") ==> ite(req.Subscription.PushConfig == nil || req.Subscription.PushConfig.PushEndpoint == "", ub.subscriptions.push_endpoint$op(subUpdate) == 2, ub.subscriptions.push_endpoint$op(subUpdate) == 1 && ub.subscriptions.push_endpoint(subUpdate) == req.Subscription.PushConfig.PushEndpoint)
+//@     invariant applied_retry_min: (exists k int :: req.UpdateMask != nil && 0 <= k && k <= idx && req.UpdateMask.Paths[k] == "retry_policy") ==> ite(req.Subscription.RetryPolicy == nil || req.Subscription.RetryPolicy.MinimumBackoff == nil, ub.subscriptions.min_backoff$op(subUpdate) == 2, ub.subscriptions.min_backoff$op(subUpdate) == 1)
+//@     invariant applied_retry_max: (exists k int :: req.UpdateMask != nil && 0 <= k && k <= idx && req.UpdateMask.Paths[k] == "retry_policy") ==> ite(req.Subscription.RetryPolicy == nil || req.Subscription.RetryPolicy.MaximumBackoff == nil, ub.subscriptions.max_backoff$op(subUpdate) == 2, ub.subscriptions.max_backoff$op(subUpdate) == 1)
 //@ func (*publisherServer).UpdateTopic$1(tx) (err)
 //@   inline
 //@   loop 1
